@@ -552,6 +552,9 @@ class Folder:
                     return getattr(base, e.attr)
                 if type(base).__name__ == "Struct" and type(base).__module__ in ("_struct", "struct") and e.attr in ("size", "format"):
                     return getattr(base, e.attr)
+                if isinstance(base, ClassInfo) and self.repo is not None and e.attr == "_fields" and any((dotted(b_) or "").split(".")[-1] == "NamedTuple" for k_ in self.repo.mro(base) if isinstance(k_, ClassInfo) for b_ in k_.node.bases):
+                    # the field names of a class-syntax NamedTuple, in declaration order
+                    return tuple(st_.target.id for k_ in reversed([k_ for k_ in self.repo.mro(base) if isinstance(k_, ClassInfo)]) for st_ in k_.node.body if isinstance(st_, ast.AnnAssign) and isinstance(st_.target, ast.Name))
                 if isinstance(base, ClassInfo) and self.repo is not None:
                     # a member reached through a class held in a variable (`cls.helper`, `K.CONSTANT`)
                     m_ = self.repo.lookup_method(base, e.attr)
@@ -844,6 +847,11 @@ class Folder:
     def _resolve(self, e: ast.expr) -> Any:
         if self.repo is None or self.mod is None:
             raise Unfoldable("unbound name %s" % unparse(e))
+        if isinstance(e, ast.Attribute) and e.attr == "_fields":
+            k0 = self.repo.resolve_expr(self.mod, e.value, self.cls)
+            if isinstance(k0, ClassInfo) and any((dotted(b_) or "").split(".")[-1] == "NamedTuple" for k_ in self.repo.mro(k0) if isinstance(k_, ClassInfo) for b_ in k_.node.bases):
+                # the field names of a class-syntax NamedTuple, in declaration order
+                return tuple(st_.target.id for k_ in reversed([k_ for k_ in self.repo.mro(k0) if isinstance(k_, ClassInfo)]) for st_ in k_.node.body if isinstance(st_, ast.AnnAssign) and isinstance(st_.target, ast.Name))
         r = self.repo.resolve_expr(self.mod, e, self.cls)
         if isinstance(r, ast.expr):
             # a module/class level constant expression; fold it in its own module
@@ -856,6 +864,8 @@ class Folder:
                 b_ = self.repo.resolve_expr(self.mod, e.value, self.cls)
                 if isinstance(b_, ClassInfo):
                     owner_cls = next((k_ for k_ in self.repo.mro(b_) if isinstance(k_, ClassInfo) and e.attr in k_.assigns), None)
+                    if owner_cls is not None and e.attr in owner_cls.__dict__.get("module_level_assigns", ()):
+                        owner, owner_cls = owner_cls.module, None  # written after the class body, in the module's scope
             elif isinstance(e, ast.Name) and self.cls is not None and e.id in self.cls.assigns and self.repo.module_member(self.mod.name, e.id) is None:
                 owner_cls = self.cls
             v_mod = Folder(self.env, self.repo, owner, owner_cls, self.hook).fold(r)
@@ -866,6 +876,10 @@ class Folder:
                 # ONE object for the life of the process: whoever changes it changes it for everyone after, and `x is SENTINEL`
                 # means what it says (the rules start every rule with a fresh process, see Ctx.attempt)
                 PROCESS_STATE[id(r)] = (r, v_mod)
+                if owner_cls is None and isinstance(e, (ast.Name, ast.Attribute)):
+                    from .absint import import_time_effects
+
+                    import_time_effects(self, owner, e.id if isinstance(e, ast.Name) else e.attr)
             return v_mod
         if isinstance(r, ClassInfo):
             return r  # a class of the model, as a value (e.g. chosen by a conditional expression)
@@ -895,6 +909,12 @@ class Folder:
                 return _TypeFn()
             if r.dotted.startswith("builtins.") and r.dotted.split(".")[1] in _BUILTIN_TYPES:
                 return _BUILTIN_TYPES[r.dotted.split(".")[1]]  # a builtin class as a value (a row of a dispatch table, isinstance(x, table[i]))
+            if r.dotted.startswith("builtins.") and r.dotted.count(".") == 1:
+                import builtins as _bi
+
+                bx = getattr(_bi, r.dotted.split(".")[1], None)
+                if isinstance(bx, type) and issubclass(bx, BaseException):
+                    return bx  # a builtin exception class as a value (a tuple of classes handed to `except` / isinstance)
             if r.dotted in _PURE_BUILTIN_VALUES:
                 return _PureBuiltin(r.dotted.split(".")[1])  # a pure builtin as a first-class value (map(sum, ...), key=len)
         raise Unfoldable("cannot resolve %s" % unparse(e))
@@ -1150,6 +1170,16 @@ class Folder:
         if name == "getattr" and len(args) in (2, 3):
             v = self.fold(args[0])
             a = self.fold(args[1])
+            if isinstance(v, _TypeOf):
+                v = v.cls
+            if isinstance(v, ClassInfo) and isinstance(a, str) and self.repo is not None:
+                # getattr(K, "name"): a function / class attribute of the class, as `K.name` would give it
+                try:
+                    return Folder({"__k": v}, self.repo, self.mod, self.cls, self.hook).fold(ast.Attribute(value=ast.Name(id="__k", ctx=ast.Load()), attr=a, ctx=ast.Load()))
+                except Unfoldable:
+                    if len(args) == 3:
+                        return self.fold(args[2])
+                    raise
             if isinstance(a, str) and not isinstance(a, Abstract):
                 if type(v).__name__ == "AObj":
                     from .absint import aobj_member
@@ -1793,7 +1823,8 @@ class Folder:
         if isinstance(e.func, (ast.Call, ast.Subscript, ast.IfExp)):
             # the callee is itself computed: getattr(x, name)(...), table[key](...), (f if c else g)(...)
             fv = self.fold(e.func)
-            if isinstance(fv, (_Lambda, _LocalFn, _Partial, ClassInfo, _TypeOf)) or type(fv).__name__ in ("_BoundMethod", "FnRef") or (isinstance(fv, Abstract) and callable(fv)) or (isinstance(fv, type) and fv in _BUILTIN_TYPES.values()):
+            callable_instance = type(fv).__name__ == "AObj" and fv._ctx_.repo.lookup_method(fv._cls_, "__call__") is not None
+            if callable_instance or isinstance(fv, (_Lambda, _LocalFn, _Partial, ClassInfo, _TypeOf)) or type(fv).__name__ in ("_BoundMethod", "FnRef") or (isinstance(fv, Abstract) and callable(fv)) or (isinstance(fv, type) and fv in _BUILTIN_TYPES.values()):
                 return call_value(self, fv, fold_starred(self, args), {k.arg: self.fold(k.value) for k in e.keywords if k.arg})
         raise Unfoldable("call " + unparse(e))
 
